@@ -404,15 +404,19 @@ def operators():
     def _(doc, rng):
         k = rng.choice(_sens_keys(doc))
         a = _addr(k)
-        doc["sensitive_hosts"][f"({a[0]},{a[1]})"] = \
-            doc["sensitive_hosts"][k]
-        return True
+        for alt in (f"({a[0]},{a[1]})", f"({a[0]}, {a[1]})",
+                    f"( {a[0]}, {a[1]} )"):
+            if alt not in doc["sensitive_hosts"]:
+                doc["sensitive_hosts"][alt] = doc["sensitive_hosts"][k]
+                return True
+        return False
 
     def sens_value(val):
         def f(doc, rng):
             k = rng.choice(_sens_keys(doc))
             doc["sensitive_hosts"][k] = val
-            doc["host_configurations"].get(k, {}).pop("value", None)
+            doc["host_configurations"].get(A(*_addr(k)), {}).pop("value",
+                                                                 None)
             return True
         return f
     ops["sensitive.value_zero"] = sens_value(0)
@@ -487,7 +491,8 @@ def operators():
 
     @op("host.readdressed_outside")
     def _(doc, rng):
-        cands = [k for k in _hosts(doc) if k not in doc["sensitive_hosts"]]
+        sens = {_addr(x) for x in doc["sensitive_hosts"]}
+        cands = [k for k in _hosts(doc) if _addr(k) not in sens]
         k = _pick(rng, cands or _hosts(doc))
         doc["host_configurations"] = {
             (A(9, 9) if kk == k else kk): v
@@ -519,6 +524,13 @@ def operators():
     def _(doc, rng):
         doc["host_configurations"][rng.choice(_hosts(doc))]["os"] = \
             "no_such_os"
+        return True
+
+    @op("host.os_none")
+    def _(doc, rng):
+        # 'none' means "any OS" for exploits only: a host must run a listed OS
+        doc["host_configurations"][rng.choice(_hosts(doc))]["os"] = \
+            rng.choice(["none", "None", "NONE"])
         return True
 
     for fld in ("os", "services", "processes"):
@@ -554,7 +566,8 @@ def operators():
 
     @op("host.value_string")
     def _(doc, rng):
-        cands = [k for k in _hosts(doc) if k not in doc["sensitive_hosts"]]
+        sens = {_addr(x) for x in doc["sensitive_hosts"]}
+        cands = [k for k in _hosts(doc) if _addr(k) not in sens]
         k = _pick(rng, cands)
         if k is None:
             return False
@@ -564,10 +577,12 @@ def operators():
     @op("host.sensitive_value_contradiction")
     def _(doc, rng):
         k = rng.choice(_sens_keys(doc))
-        if k not in doc["host_configurations"]:
+        hk = A(*_addr(k))
+        if hk not in doc["host_configurations"]:
             return False
         v = doc["sensitive_hosts"][k]
-        doc["host_configurations"][k]["value"] = v + rng.choice([1, 10, -0.5])
+        doc["host_configurations"][hk]["value"] = v + rng.choice([1, 10,
+                                                                  -0.5])
         return True
 
     # 9. subnet firewall ------------------------------------------------------
